@@ -41,6 +41,18 @@ def main(argv):
     cases.append({'file': [['ns', ['N'], [['comp', ['NoPorts'], []]]]],
                   'cfg': {'file': 'NoPorts.dzn', 'enc': ['N', 'NoPorts'], 'sf_prefix': ['Pre'],
                           'ports': {'p': [['w', 'all'], ['w', 'none']], 'r': [['w', 'all'], ['w', 'none']]}}})
+    # names that collide under unqualified C++ lookup: a component named like its enclosing namespace, an interface named like
+    # the component, a namespace named like an extern's C++ namespace
+    cases.append({'file': [['extern', ['PInt'], 'int'],
+                           ['ns', ['Toaster'], [['itf', ['IApi'], [], [['Start', 'in', ['void'], [['n', ['PInt'], 'in']]], ['Done', 'out', ['void'], []]]],
+                                                ['comp', ['Toaster'], [['api', ['IApi'], 'provides', False], ['hal', ['IApi'], 'requires', False]]]]]],
+                  'cfg': {'file': 'Toaster.dzn', 'enc': ['Toaster', 'Toaster'], 'fac': 'create',
+                          'ports': {'p': [['w', 'none'], ['w', 'all']], 'r': [['w', 'none'], ['w', 'all']]}}})
+    cases.append({'file': [['extern', ['PInt'], 'int'],
+                           ['ns', ['Toaster'], [['itf', ['IApi'], [], [['Start', 'in', ['void'], [['n', ['PInt'], 'in']]], ['Done', 'out', ['void'], []]]],
+                                                ['comp', ['Toaster'], [['api', ['IApi'], 'provides', False], ['hal', ['IApi'], 'requires', False]]]]]],
+                  'cfg': {'file': 'Toaster.dzn', 'enc': ['Toaster', 'Toaster'], 'fac': 'import', 'sf_prefix': ['Toaster'],
+                          'ports': {'p': [['w', 'all'], ['w', 'none']], 'r': [['w', 'all'], ['w', 'none']]}}})
     # multi-client shells with and without a support-file prefix, created and imported facilities, odd event names
     from checks.c11 import fixed_cases
     for fc in fixed_cases():
